@@ -161,6 +161,8 @@ pub fn run(tier: Tier) -> i32 {
                 }
             }
         }
+        // a hyphen glued in front of a unit (dash-bulleted lists)
+        b.push(format!("-{}", c.unit));
         let mut b2: Vec<String> = vec![];
         for w in b {
             if !b2.contains(&w) {
@@ -169,6 +171,14 @@ pub fn run(tier: Tier) -> i32 {
         }
         alphas.push(json!({"lang": l.code(), "sentence_and_expression_alphabet": b2}));
         total.merge(explore::all_sequences2(&b2, 4, |syms, acc| one_text(&ctx, acc, l, &lang, syms)));
+        // the function words that sit next to numbers (articles, half, dozen, pair ...), depth 3 with one, unit, tens
+        let mut fw: Vec<String> = vec![c.one.clone(), c.unit.clone(), c.tens.clone(), ",".to_string()];
+        for w in vocab::function_words(l) {
+            if !fw.iter().any(|x| x == w) {
+                fw.push(w.to_string());
+            }
+        }
+        total.merge(explore::all_sequences2(&fw, 3, |syms, acc| one_text(&ctx, acc, l, &lang, syms)));
         total.sample(json!({"lang": l.code(), "text": format!("{}\u{a0}{}\t{}", a[1], a[0], a[2])}));
     }
     let cov = json!({
